@@ -24,3 +24,34 @@ Theorem C20_ids_independent : forall w key isrel zs,
 Proof. exact res_ids_independent. Qed.
 
 Print Assumptions C20_resources_map.
+
+(** ** The resource storage of the code itself: Add / Remove / Get / Has / reset of
+    ecs/resources.go, as translated into [Gen/GoResources.v] (regenerated on every run),
+    return what the model's step returns on the model's list [w_res], panics included
+    (double add, removal of an absent resource, id out of range); reset clears every slot.
+    Values of type [any] are nil or opaque numbers; [f] is any map from the model's values. *)
+From Arche Require Import Pure.GoRt Gen.GoResources Proofs.ResTie.
+Local Open Scope nat_scope.
+Theorem C20_code_add : forall (f : Z -> N) g l i v, rr f g l ->
+  match l !! i with
+  | Some None => exists g', Resources_Add g (N.of_nat i) (Some (f v)) = Ret g' /\ rr f g' (<[i := Some v]> l)
+  | _ => Resources_Add g (N.of_nat i) (Some (f v)) = Panicked
+  end.
+Proof. exact Add_tie. Qed.
+Theorem C20_code_remove : forall (f : Z -> N) g l i, rr f g l ->
+  match l !! i with
+  | Some (Some _) => exists g', Resources_Remove g (N.of_nat i) = Ret g' /\ rr f g' (<[i := None]> l)
+  | _ => Resources_Remove g (N.of_nat i) = Panicked
+  end.
+Proof. exact Remove_tie. Qed.
+Theorem C20_code_get : forall (f : Z -> N) g l i, rr f g l ->
+  Resources_Get g (N.of_nat i) = match l !! i with Some o => Ret (fmap f o) | None => Panicked end.
+Proof. exact Get_tie. Qed.
+Theorem C20_code_has : forall (f : Z -> N) g l i, rr f g l ->
+  Resources_Has g (N.of_nat i) = match l !! i with Some o => Ret (bool_decide (is_Some o)) | None => Panicked end.
+Proof. exact Has_tie. Qed.
+Theorem C20_code_reset : forall (f : Z -> N) g l, rr f g l ->
+  exists g', Resources_reset g = Ret g' /\ rr f g' (replicate (length l) None).
+Proof. exact reset_tie. Qed.
+Print Assumptions C20_code_add.
+Print Assumptions C20_code_reset.
